@@ -29,6 +29,16 @@ pub struct CL03Commitment {
     pub randomness: Integer,
 }
 
+impl CL03Commitment {
+    /// The commitment as it may be sent to a verifier: the value without the opening randomness.
+    pub(crate) fn without_opening(&self) -> Self {
+        Self {
+            value: self.value.clone(),
+            randomness: Integer::from(0),
+        }
+    }
+}
+
 impl<CS: CLCiphersuite> Commitment<CL03<CS>> {
     pub(crate) fn commit_v(v: &Integer, commitment_pk: &CL03CommitmentPublicKey) -> Self {
         let w = random_bits(CS::ln);
